@@ -54,7 +54,7 @@ def extractor(name, RU):
                 if c in (R.NANC, R.NINF):
                     return (R.NANC,) * 5
                 tot += c
-            return (R.capint(n.visited_times), len(n.rewards), tot, 1 if n.opened else 0, 0)
+            return (R.capint(n.visited_times), len(n.rewards), tot, 1 if n.opened else 0, R.fx(n.mean_reward, S))
         return g
     raise KeyError(name)
 
@@ -112,6 +112,14 @@ def _run(cfg):
         elif dk == "lin":
             prm["delta_fn"] = lambda h: max(0.0, 1.0 - h / 8.0)
             P["dl"] = [int(max(0.0, 1.0 - h / 8.0) * S) for h in range(60)]
+    if name == "StroquOOL":
+        hs = sum(Decimal(1) / i for i in range(1, n + 1))
+        x = Decimal(n) / (2 * (hs + 1) ** 2)
+        if K.near_int(x):
+            return {"id": cfg["id"], "skipped": "constants"}
+        P["hmax"] = K.dfloor(x)
+        P["pmax"] = P["hmax"].bit_length() - 1
+        P["consecutive"] = 1 if cfg.get("t0", 1) == 1 else 0
     if name == "SequOOL":
         hs = sum(Decimal(1) / i for i in range(1, n + 1))
         x = Decimal(n) / hs
